@@ -143,7 +143,7 @@ func (x *c20SX) apply(fn *types.Func, call *ast.CallExpr, recv *c20V, args []c20
 		case c20kRef:
 			// the callee may store through the pointer
 			st.env[a.obj] = c20Unknown("`%s` may have been changed by `%s`", a.obj.Name(), x.srcOf(call))
-		case c20kList, c20kBytes:
+		case c20kList, c20kBytes, c20kAgg:
 			return c20One(st.abort(call, "`%s` passes a list or buffer the URL is built from to a function that is not modelled (it could change its contents)", x.srcOf(call)), c20V{})
 		}
 		if x.docDerived(a, st) {
@@ -246,6 +246,9 @@ func (x *c20SX) builtin(name string, call *ast.CallExpr, st *c20St) []c20EV {
 		case name == "len" && len(it.vs) == 1:
 			b := it.vs[0]
 			v = c20V{k: c20kLen, base: &b}
+			if b.k == c20kAgg {
+				v = c20V{k: c20kInt, n: int64(len(b.vs))}
+			}
 			if b.k == c20kStr && len(b.sym.holes()) == 0 {
 				v = c20V{k: c20kInt, n: int64(len(b.sym.render(nil)))}
 			}
